@@ -9,9 +9,10 @@ PROPS = {
         "level_text": "Kernel-checked theorems, law-level over all inputs of each modelled layer: (Green/Events) for ALL MarkEvent lists - balanced or not, any forward-parent structure - the tree built by the modelled LuaTreeBuilder/LuaGreenNodeBuilder has exactly the EatToken tokens as leaves, once each, in order (text = their concatenation), root is a Chunk; (Core) for all token lists, doc on/off and ALL grammars (any number of bumps per parse_stats call) the parser core covers every lexer token exactly once, in order, when parse_chunk returns; (Reader) for all texts incl. NUL/BOM/CR and ALL lexer arms (any number of bumps per token) the token ranges tile [0,|text|); (Marker) mark_level = open NodeStarts - NodeEnds for all marker op sequences and the parse_stats recovery closes exactly the nodes the failed statement left open. Every layer is compared with the real code on every run (random event lists and the event streams of real parses vs LuaTreeBuilder; token-class lists vs the real EatToken events and Comment nodes; random op sequences vs the real public Reader; real token lists replayed as bump schedules; mark_level of real parses), and the property's oracle (tree text == input, tree tokens and lexer tokens tile the input) runs on the implementation over token soup / doc soup / NUL, BOM, CR / random bytes x 8 language levels x doc on/off.",
         "level_note": "Trusted: Lean kernel, harness/serialiser, the correspondence run as the tie (differential, not a proof about the Rust). The grammar functions (grammar/**) are not modelled: they are covered by the universal quantifiers (all event lists / all grammars g / all lexer arms). Not modelled: the internals of the doc parser and doc lexer - the assumption DocSpec (the doc tokens of a comment group tile the group's byte range) is checked on the implementation by the tree.core tie on every run; so the end-to-end composition 'tree text = input' is proved per layer and composed through that checked assumption, not as one Lean theorem.",
         "trusted_base": TREE_TB,
-        "assumptions": ["texts shorter than 2^32 bytes (rowan TextSize is u32)", "DocSpec: the EatTokens LuaDocParser emits for a comment group tile the group's byte range (checked every run on the generated inputs)", "set_current_token_kind never changes the trivia class of a token (the grammar only turns names into keywords)"],
+        "assumptions": ["texts shorter than 2^32 bytes (rowan TextSize is u32)", "DocSpec: the EatTokens LuaDocParser emits for a comment group tile the group's byte range (checked every run on the generated inputs)", "set_current_token_kind never changes the trivia class of a token: its call-site arguments are re-extracted from the source every run and checked by C01_set_kind_keeps_class"],
         "technique": "Lean 4 theorems about executable models of reader loop, parser core, marker discipline and tree builder; models tied to /repo by differential correspondence runs",
         "design_ref": "DESIGN.md §6 C01",
+        "gen": ["tree_callgraph"],
     },
     "C04": {
         "harness": "vh-tree",
@@ -25,7 +26,7 @@ PROPS = {
     "C02": {
         "harness": "vh-tree",
         "level": "proof",
-        "level_text": "PARTIAL. Kernel-checked theorems, for every token list and every grammar behaviour: bump strictly advances the token index and cannot fail before the end; every iteration of the parse_chunk loop strictly advances (progress guard) and the loop ends at the end of input within #tokens iterations; all model functions are total; and over the call graph of the parse path RE-EXTRACTED FROM THE RUST SOURCE on every run: every recursion (cycle) passes through a function that takes one of the MAX_SYNTAX_LEVELS=200 levels, hence a stack with at most 200 level-taking frames has a bounded number of frames. The token-layer model is compared with the real event streams every run. Stack depth and wall-clock time are runtime facts outside the model: they are checked by the implementation-side oracle only (child process, parse on a 2 MiB thread stack under a budget of 1.5 s + 40 us/byte) on 66 nesting ladders at depths 1..20 000 (thorough 100 000) around and far beyond the syntax-level limit, large token soup and long flat files.",
+        "level_text": "PARTIAL. Kernel-checked theorems, for every token list and every grammar behaviour: bump strictly advances the token index and cannot fail before the end; every iteration of the parse_chunk loop strictly advances (progress guard) and the loop ends at the end of input within #tokens iterations; all model functions are total; and over the call graph of the parse path RE-EXTRACTED FROM THE RUST SOURCE on every run: every recursion (cycle) passes through a function that takes one of the MAX_SYNTAX_LEVELS=200 levels, hence a stack with at most 200 level-taking frames has a bounded number of frames. The token-layer model is compared with the real event streams every run. Stack depth and wall-clock time are runtime facts outside the model: they are checked by the implementation-side oracle only (child process, parse on a 2 MiB thread stack under a budget of 3 s + 40 us/byte, a case is over budget only if three attempts in a row are) on 68 nesting ladders at depths 1..20 000 (thorough 100 000) around and far beyond the syntax-level limit, large token soup and long flat files.",
         "level_note": "Partial: no theorem about real stack frames or time. The recursion limit (MAX_SYNTAX_LEVELS = 200, fix: commit) is exercised by the ladders (first depth reporting 'too many syntax levels' is recorded per ladder). Open finding: iterative left-nested chains of >= ~16000 links give trees whose recursive drop/re-hash inside rowan overflows 2 MiB or takes quadratic time.",
         "trusted_base": TREE_TB + ["OS process/thread semantics for the crash oracle (thread stack size 2 MiB, SIGABRT/SIGSEGV on overflow)"],
         "assumptions": ["the grammar moves the token index only through LuaParser::bump (token_index is private to lua_parser.rs)", "set_current_token_kind never changes the class (trivia / non-trivia) of a token"],
@@ -38,4 +39,5 @@ PROPS = {
 
 HOOK_COMMITS = [
     "4dc74ec verif hook: emmylua_parser feature verif exports MarkEvent and LuaParser::verif_parse_events",
+    "f303c1a verif hook: order the MarkEvent re-export as rustfmt expects",
 ]
